@@ -157,6 +157,54 @@ struct PairSpec {
     sys: System,
 }
 
+/// Uploads whose size and byte values sit on the boundaries of the server's staging buffer (256 KiB): all-zero
+/// chunks (sparse-file shortcuts), exact multiples, one byte more; single server followed by Get and List.
+fn big_content_systems(thorough: bool) -> Vec<PairSpec> {
+    let k = 262_144usize;
+    let mut shapes: Vec<(&str, Vec<u8>)> = vec![
+        ("zeros(256Ki)", vec![0u8; k]),
+        ("zeros(512Ki)", vec![0u8; 2 * k]),
+        ("zeros(256Ki)+1", { let mut v = vec![0u8; k]; v.push(7); v }),
+        ("data(256Ki)+zeros(256Ki)", { let mut v: Vec<u8> = (0..k).map(|i| (i % 251) as u8 + 1).collect(); v.extend(vec![0u8; k]); v }),
+    ];
+    if thorough {
+        shapes.push(("zeros(256Ki)+data(256Ki)", { let mut v = vec![0u8; k]; v.extend((0..k).map(|i| (i % 251) as u8 + 1)); v }));
+        shapes.push(("zeros(256Ki-1)", vec![0u8; k - 1]));
+        shapes.push(("zeros(768Ki)", vec![0u8; 3 * k]));
+        shapes.push(("data(300000)", (0..300_000).map(|i| (i % 253) as u8).collect()));
+    }
+    shapes
+        .into_iter()
+        .map(|(n, content)| {
+            let mut p = put("f", Exp::Absent, &content);
+            if let Op::Put { pieces, .. } = &mut p {
+                *pieces = content.len().div_ceil(32_768).max(1);
+            }
+            PairSpec { name: format!("Put f := {n}; Get; List"), sys: System { init: Files::new(), programs: vec![vec![p, Op::Get { path: "f".into() }, Op::List]], external: vec![], late: vec![] } }
+        })
+        .collect()
+}
+
+/// A server that STARTS while another one is in the middle of a request (its start-up steps are scheduled), and
+/// leftovers of an earlier, killed server process that had the same pid (pid reuse): a long staging file under
+/// exactly the name the new server will use.
+fn late_and_leftover_systems() -> Vec<PairSpec> {
+    let progs = programs(true);
+    let get = |n: &str| progs.iter().find(|(k, _)| *k == n).map(|(_, p)| p.clone()).unwrap_or_else(|| machinery_error(format!("no program {n}")));
+    let mut v = vec![
+        PairSpec { name: "P3||late P8 on {f:c0}".into(), sys: System { init: init_tree(true), programs: vec![get("P3"), get("P8")], external: vec![], late: vec![1] } },
+        PairSpec { name: "P9||late P5 on {f:c0}".into(), sys: System { init: init_tree(true), programs: vec![get("P9"), get("P5")], external: vec![], late: vec![1] } },
+        PairSpec { name: "late P1||late P2 on {f:c0}".into(), sys: System { init: init_tree(true), programs: vec![get("P1"), get("P2")], external: vec![], late: vec![0, 1] } },
+    ];
+    let stale: Vec<u8> = b"leftover-of-a-killed-server-with-the-same-pid".to_vec();
+    for (name, prog) in [("P1", get("P1")), ("P9", get("P9")), ("P10", get("P10"))] {
+        let mut init = init_tree(true);
+        init.insert("f.<pid0>.copia-tmp".into(), stale.clone());
+        v.push(PairSpec { name: format!("{name}||P5 on {{f:c0}} + leftover f.<pid0>.copia-tmp"), sys: System { init, programs: vec![prog, get("P5")], external: vec![], late: vec![] } });
+    }
+    v
+}
+
 /// Requests that name a path which is a DIRECTORY on the hub (a file lives beneath it).
 fn dir_systems() -> Vec<PairSpec> {
     let mut init = Files::new();
@@ -166,11 +214,11 @@ fn dir_systems() -> Vec<PairSpec> {
     let d3 = vec![Op::Delete { path: "d".into(), expected: Exp::Absent }, Op::Get { path: "d/x".into() }];
     let other = vec![put("d/y", Exp::Absent, Y)];
     vec![
-        PairSpec { name: "D1 alone on {d/x}".into(), sys: System { init: init.clone(), programs: vec![d1.clone()], external: vec![] } },
-        PairSpec { name: "D2 alone on {d/x}".into(), sys: System { init: init.clone(), programs: vec![d2.clone()], external: vec![] } },
-        PairSpec { name: "D3 alone on {d/x}".into(), sys: System { init: init.clone(), programs: vec![d3], external: vec![] } },
-        PairSpec { name: "D1||Put(d/y) on {d/x}".into(), sys: System { init: init.clone(), programs: vec![d1, other.clone()], external: vec![] } },
-        PairSpec { name: "D2||Put(d/y) on {d/x}".into(), sys: System { init, programs: vec![d2, other], external: vec![] } },
+        PairSpec { name: "D1 alone on {d/x}".into(), sys: System { init: init.clone(), programs: vec![d1.clone()], external: vec![], late: vec![] } },
+        PairSpec { name: "D2 alone on {d/x}".into(), sys: System { init: init.clone(), programs: vec![d2.clone()], external: vec![], late: vec![] } },
+        PairSpec { name: "D3 alone on {d/x}".into(), sys: System { init: init.clone(), programs: vec![d3], external: vec![], late: vec![] } },
+        PairSpec { name: "D1||Put(d/y) on {d/x}".into(), sys: System { init: init.clone(), programs: vec![d1, other.clone()], external: vec![], late: vec![] } },
+        PairSpec { name: "D2||Put(d/y) on {d/x}".into(), sys: System { init, programs: vec![d2, other], external: vec![], late: vec![] } },
     ]
 }
 
@@ -180,7 +228,7 @@ fn pair_systems(names: &[(&str, &str)], inits: &[bool]) -> Vec<PairSpec> {
         let progs = programs(wf);
         let get = |n: &str| progs.iter().find(|(k, _)| *k == n).map(|(_, p)| p.clone()).unwrap_or_else(|| machinery_error(format!("no program {n}")));
         for (a, b) in names {
-            out.push(PairSpec { name: format!("{a}||{b} on {}", if wf { "{f:c0}" } else { "{}" }), sys: System { init: init_tree(wf), programs: vec![get(a), get(b)], external: vec![] } });
+            out.push(PairSpec { name: format!("{a}||{b} on {}", if wf { "{f:c0}" } else { "{}" }), sys: System { init: init_tree(wf), programs: vec![get(a), get(b)], external: vec![], late: vec![] } });
         }
     }
     out
@@ -225,6 +273,8 @@ pub fn run(ctx: &Ctx, which: &str) -> ! {
         specs.extend(malformed_systems());
         specs.extend(triple_systems());
         specs.extend(dir_systems());
+        specs.extend(late_and_leftover_systems());
+        specs.extend(big_content_systems(true));
         let Some(spec) = specs.into_iter().find(|s| s.name == name) else { machinery_error(format!("unknown program pair {name}")) };
         let env = envs[0].lock().unwrap_or_else(|e| e.into_inner());
         let inst = c10_instant(&spec.sys);
@@ -298,10 +348,13 @@ pub fn run(ctx: &Ctx, which: &str) -> ! {
     }
     // requests whose path names a directory of the hub
     for spec in dir_systems() {
+        run_spec(&spec, if thorough { 2 } else { 1 }, false, &mut tot, &mut violations, &mut sample);
+    }
+    for spec in late_and_leftover_systems() {
         run_spec(&spec, 2, false, &mut tot, &mut violations, &mut sample);
     }
     // three servers (a lock holder, a waiter queued behind it, and a late arrival) at bound 2
-    for spec in triple_systems().into_iter().take(if thorough { 4 } else { 1 }) {
+    for spec in triple_systems().into_iter().take(if thorough { 4 } else if which == "C03" { 1 } else { 0 }) {
         run_spec(&spec, 2, false, &mut tot, &mut violations, &mut sample);
     }
     if thorough {
@@ -312,6 +365,9 @@ pub fn run(ctx: &Ctx, which: &str) -> ! {
 
     }
     if which == "C10" {
+        for spec in big_content_systems(thorough) {
+            run_spec(&spec, 0, false, &mut tot, &mut violations, &mut sample);
+        }
         // (b) crash sub-exploration: one kill at any point, preemption bound 1 around it
         let kill_pairs: Vec<(&str, &str)> = if thorough { vec![("P1", "P2"), ("P1", "P3"), ("P1", "P4"), ("P1", "P5"), ("P3", "P9"), ("P10", "P5"), ("P2", "P8")] } else { vec![("P1", "P2"), ("P3", "P5")] };
         for spec in pair_systems(&kill_pairs, if thorough { &[false, true] } else { &[true] }) {
@@ -370,7 +426,7 @@ fn malformed_systems() -> Vec<PairSpec> {
                 }
             });
             for (n, bad) in [("bad-hash", bad_hash), ("short-content", short_content), ("excess-length", excess), ("zero-len-with-bytes", zero_len)] {
-                out.push(PairSpec { name: format!("malformed {n}{} || Get,List on {}", if stale { " (stale expected)" } else { "" }, if wf { "{f:c0}" } else { "{}" }), sys: System { init: init_tree(wf), programs: vec![vec![bad], vec![Op::Get { path: "f".into() }, Op::List]], external: vec![] } });
+                out.push(PairSpec { name: format!("malformed {n}{} || Get,List on {}", if stale { " (stale expected)" } else { "" }, if wf { "{f:c0}" } else { "{}" }), sys: System { init: init_tree(wf), programs: vec![vec![bad], vec![Op::Get { path: "f".into() }, Op::List]], external: vec![], late: vec![] } });
             }
         }
     }
@@ -382,9 +438,9 @@ fn triple_systems() -> Vec<PairSpec> {
     let get = |n: &str| progs.iter().find(|(k, _)| *k == n).map(|(_, p)| p.clone()).unwrap_or_default();
     vec![
         // a holder that does not touch f, a waiter queued behind it, and a late arrival: both followers expect c0
-        PairSpec { name: "P8||P1||P2 on {f:c0}".into(), sys: System { init: init_tree(true), programs: vec![get("P8"), get("P1"), get("P2")], external: vec![] } },
-        PairSpec { name: "P1||P2||P4 on {f:c0}".into(), sys: System { init: init_tree(true), programs: vec![get("P1"), get("P2"), get("P4")], external: vec![] } },
-        PairSpec { name: "P1||P2||P5 on {f:c0}".into(), sys: System { init: init_tree(true), programs: vec![get("P1"), get("P2"), get("P5")], external: vec![] } },
-        PairSpec { name: "P3||P9||P6 on {f:c0}".into(), sys: System { init: init_tree(true), programs: vec![get("P3"), get("P9"), get("P6")], external: vec![] } },
+        PairSpec { name: "P8||P1||P2 on {f:c0}".into(), sys: System { init: init_tree(true), programs: vec![get("P8"), get("P1"), get("P2")], external: vec![], late: vec![] } },
+        PairSpec { name: "P1||P2||P4 on {f:c0}".into(), sys: System { init: init_tree(true), programs: vec![get("P1"), get("P2"), get("P4")], external: vec![], late: vec![] } },
+        PairSpec { name: "P1||P2||P5 on {f:c0}".into(), sys: System { init: init_tree(true), programs: vec![get("P1"), get("P2"), get("P5")], external: vec![], late: vec![] } },
+        PairSpec { name: "P3||P9||P6 on {f:c0}".into(), sys: System { init: init_tree(true), programs: vec![get("P3"), get("P9"), get("P6")], external: vec![], late: vec![] } },
     ]
 }
